@@ -316,6 +316,29 @@ def r03_7(ctx, fx):
                detail="emptiness tests of the cursor that guard the result: %d (helpers: %s); leftover handed on with the result: %s" % (len(good), helpers, handed))
 
 
+def r03_8(ctx, fx):
+    """"every byte written after negotiation reaches the other side": the frame sink under the negotiation (LengthDelimited) reports a
+    flush / close complete only after it has drained its own frame buffer *and* flushed / closed the transport - on every path, also
+    when its frame buffer is already empty (the lazy dialer's payload goes straight to the transport; a re-poll after the transport's
+    flush returned Pending finds the frame buffer empty).  A completing return of poll_flush (poll_close) that does not come from the
+    inner poll_flush (poll_close) leaves proposal, confirmation or payload in a buffering transport and both sides wait for ever."""
+    n = 0
+    for key in sorted(fx.find(r"^<multistream_select::length_delimited::LengthDelimited<R> as futures::Sink<bytes::Bytes>>::poll_(flush|close)$")):
+        fn = fx.fn(key)
+        meth = key.rsplit("::", 1)[-1]
+        n += 1
+        ctx.bodies.add((fx.cfg, key))
+        inner = [c for c in fn.calls(r"AsyncWrite>?::%s$" % meth)]
+        drain = [c for c in fn.calls(r"LengthDelimited(<.*>)?::poll_write_buffer$")]
+        done = [nd for nd, sh in fn.exits() if not all(x.startswith("Pending") or x.startswith("Ready.Err") for x in sh)]
+        ok_inner = bool(inner) and not any(nd in fn.reach([fn.entry], avoid=[c.node for c in inner]) for nd in done)
+        ok_drain = bool(drain) and not any(nd in fn.reach([fn.entry], avoid=[c.node for c in drain]) for nd in done)
+        ctx.ob("R03.8", "LengthDelimited::%s/complete-only-through-the-transport's-%s" % (meth, meth), ok_inner and bool(done), site=fn.site(fn.entry), cfg=fx.cfg,
+               detail="inner %s calls: %d; completing exits: %d" % (meth, len(inner), len(done)))
+        ctx.ob("R03.8", "LengthDelimited::%s/complete-only-after-draining-the-frame-buffer" % meth, ok_drain, site=fn.site(fn.entry), cfg=fx.cfg)
+    ctx.anchor("R03.8", "LengthDelimited Sink::poll_flush / poll_close", n, 2, cfg=fx.cfg)
+
+
 def r03_4(ctx, fx):
     for meth, inner_rx in (("AsyncRead>::poll_read", r"AsyncRead>?::poll_read$"), ("AsyncWrite>::poll_write", r"AsyncWrite>?::poll_write$"),
                            ("AsyncWrite>::poll_flush", r"AsyncWrite>?::poll_flush$"), ("AsyncWrite>::poll_close", r"AsyncWrite>?::poll_close$")):
@@ -433,5 +456,6 @@ def run(ctx):
     r03_4(ctx, fx)
     r03_6(ctx, fx)
     r03_7(ctx, fx)
+    r03_8(ctx, fx)
     ctx.assume("Protocol equality is byte equality of the names; MessageIO frames/deframes whole messages (C19 covers its decoder)")
     ctx.assume("agreement on the first common protocol, termination and fragmentation independence are NOT decided (values / histories / foreign peer)")
